@@ -46,6 +46,18 @@ func Variants13() []Variant {
 	}
 }
 
+// VariantsCombined are handshake variants that combine two non-default dimensions (used by C02 only).
+func VariantsCombined() []Variant {
+	return []Variant{
+		{Name: "12-mtu100-store", C: world.Cfg{MTU: 100, Store: world.NewMapStore()}, S: world.Cfg{MTU: 100, Store: world.NewMapStore()}},
+		{Name: "12-mtu100-resumed", Resumed: true, C: world.Cfg{MTU: 100}, S: world.Cfg{MTU: 100}},
+		{Name: "12-mtu100-clientauth", C: world.Cfg{MTU: 100, Cred: "ecdsa"}, S: world.Cfg{MTU: 100, ClientAuth: dtls.RequireAndVerifyClientCert}},
+		{Name: "12-cid-resumed", Resumed: true, C: world.Cfg{CIDLen: 4}, S: world.Cfg{CIDLen: 4}},
+		{Name: "12-psk-mtu100", C: world.Cfg{MTU: 100, Cred: "psk", PSK: pskKey, Suites: []dtls.CipherSuiteID{dtls.TLS_PSK_WITH_AES_128_GCM_SHA256}},
+			S: world.Cfg{MTU: 100, Cred: "psk", PSK: pskKey, Suites: []dtls.CipherSuiteID{dtls.TLS_PSK_WITH_AES_128_GCM_SHA256}}},
+	}
+}
+
 // AllVariants returns 1.2 then 1.3 variants.
 func AllVariants() []Variant { return append(Variants12(), Variants13()...) }
 
